@@ -32,6 +32,9 @@ var c13ViewHeaders = map[string]any{
 	// forwarding headers heimdall does not interpret itself are ordinary request headers at every entry point
 	"X-View-Fwd": `{{ .Request.Header "X-Forwarded-Port" }}|{{ .Request.Header "X-Forwarded-Prefix" }}|{{ .Request.Header "X-Forwarded-User" }}`,
 	"X-Out-Sub":  `{{ .Subject.ID }}`,
+	// a pipeline header whose value is empty for most requests: it is handed over (empty) all the same, so that a
+	// value sent by the client under that name never counts
+	"X-Out-Opt": `{{ if eq (.Request.Header "X-Role") "admin" }}admin-group{{ end }}`,
 }
 
 func c13Rules(up string) []*rconfig.RuleSet {
@@ -122,6 +125,18 @@ func (t *trio) c13Send(ep string, lr lreq) c13View {
 			}
 		}
 	}
+	if ep != "proxy" {
+		// decision service and Envoy answer with the headers the fronting proxy sets on the request it forwards: a header
+		// that is NOT in the answer is not touched there, so what the client sent under that name reaches the upstream
+		for name, val := range lr.Headers {
+			ck := http.CanonicalHeaderKey(name)
+			if strings.HasPrefix(ck, "X-View-") || strings.HasPrefix(ck, "X-Out-") {
+				if _, ok := v.Headers[ck]; !ok {
+					v.Headers[ck] = "client-value-passes:" + val
+				}
+			}
+		}
+	}
 	return v
 }
 
@@ -156,7 +171,9 @@ func c13Request(rng *rand.Rand) lreq {
 		"/view/a|b/c^d", "/free/{x}/a%2Fb/`y`", "/view/%7Bid%7D/<z>"}
 	lr := lreq{Method: []string{"GET", "POST", "PUT", "DELETE", "PATCH", "OPTIONS"}[rng.IntN(6)], Path: paths[rng.IntN(len(paths))], Headers: map[string]string{}}
 	lr.Host = []string{"svc.test", "api.example.com:8443", "10.1.2.3", "App.Example.COM", "SVC.test:80"}[rng.IntN(5)]
-	lr.Query = []string{"", "q=1", "q=1&multi=a&multi=b", "q=a%20b&x=%2F", "multi=z&q=1&q=2", "flag"}[rng.IntN(6)]
+	lr.Query = []string{"", "q=1", "q=1&multi=a&multi=b", "q=a%20b&x=%2F", "multi=z&q=1&q=2", "flag",
+		// separators and characters a query parser may treat specially
+		"q=1;multi=a", "multi=a;b&q=2", "q=a+b&multi=%2B", "q=%zz&multi=a", "q==1&&multi=&=x"}[rng.IntN(11)]
 	if rng.IntN(2) == 0 {
 		lr.Headers["X-Custom"] = []string{"cv", "with space", "a,b", "üni"}[rng.IntN(4)]
 	}
@@ -171,7 +188,7 @@ func c13Request(rng *rand.Rand) lreq {
 	}
 	if rng.IntN(4) == 0 {
 		// the client sends a header the pipeline is going to produce for the upstream side: only the pipeline's value counts
-		lr.Headers[[]string{"X-Out-Sub", "x-out-sub", "X-View-Method", "X-VIEW-CAPS"}[rng.IntN(4)]] = []string{"mallory", "one\ntwo"}[rng.IntN(2)]
+		lr.Headers[[]string{"X-Out-Sub", "x-out-sub", "X-View-Method", "X-VIEW-CAPS", "X-Out-Opt", "x-out-opt"}[rng.IntN(6)]] = []string{"mallory", "one\ntwo"}[rng.IntN(2)]
 	}
 	switch rng.IntN(8) {
 	case 5:
